@@ -45,6 +45,9 @@ pub struct SynFeatures {
     pub poisoned: bool,
     /// blocks with identical run-length coded headers but different HLIT/HDIST split
     pub split_shift: bool,
+    pub filler: bool,
+    pub hot_zone_tokens: usize,
+    pub max_header: bool,
     pub mode: &'static str,
 }
 
@@ -128,6 +131,12 @@ impl SynFeatures {
         }
         if self.split_shift {
             v.push("syn:same-header-different-hlit/hdist-split");
+        }
+        if self.hot_zone_tokens > 0 {
+            v.push("syn:tokens-at-hash-rebase-position");
+        }
+        if self.max_header {
+            v.push("syn:HLIT=288,HDIST=32");
         }
         v
     }
@@ -431,10 +440,43 @@ fn pick_dist(mix: &mut Mix, pos: usize) -> u32 {
 }
 
 /// token mode: tokens first, plaintext derived
+/// positions at which the library's hash chains are re-based (first at 0xfe00, then every 0x7e00)
+fn next_rebase(pos: usize) -> usize {
+    let first = 0xfe00usize;
+    if pos <= first {
+        first
+    } else {
+        first + ((pos - first + 0x7e00 - 1) / 0x7e00) * 0x7e00
+    }
+}
+
 fn gen_tokens_token_mode(dna: &mut Dna, feat: &mut SynFeatures, max_plain: usize) -> (Vec<Tok>, Vec<u8>) {
     let nruns = dna.range(1, 6);
     let mut toks = Vec::new();
     let mut plain: Vec<u8> = Vec::new();
+    // "filler": get close to the first hash-chain re-base position (64 KiB) quickly, so that the
+    // generated tokens around it (hot zone below) are reached with few tokens
+    if max_plain > 70_000 && dna.chance(15) {
+        let mut m = Mix::new(dna.u64());
+        let target = 0xfe00usize.saturating_sub(m.range(0, 3000));
+        let alpha = [1usize, 3, 16, 256][m.below(4)];
+        for _ in 0..m.range(4, 300) {
+            let b = if alpha == 256 { m.u8() } else { b'a' + m.below(alpha) as u8 };
+            plain.push(b);
+            toks.push(Tok::Lit(b));
+        }
+        while plain.len() + 258 < target {
+            let len = if m.chance(80) { 258 } else { m.range(3, 258) as u16 };
+            let dist = pick_dist(&mut m, plain.len());
+            let st = plain.len() - dist as usize;
+            for i in 0..len as usize {
+                let b = plain[st + i];
+                plain.push(b);
+            }
+            toks.push(Tok::Ref { len, dist, irregular: false });
+        }
+        feat.filler = true;
+    }
     for _ in 0..nruns {
         let count = match dna.weighted(&[35, 35, 20, 8, 2]) {
             0 => dna.range(0, 8),
@@ -449,6 +491,26 @@ fn gen_tokens_token_mode(dna: &mut Dna, feat: &mut SynFeatures, max_plain: usize
         let seed = dna.u64();
         let mut mix = Mix::new(seed);
         for _ in 0..count {
+            // hot zone: within a few hundred bytes of a re-base position prefer maximum-length
+            // and window-edge references at every alignment
+            let nb = next_rebase(plain.len());
+            let hot = plain.len() > 40_000 && (nb - plain.len() < 600 || plain.len() + 0x7e00 - nb < 300);
+            if hot && mix.chance(70) {
+                let len = if mix.chance(50) { 258 } else { pick_len(&mut mix) };
+                let dist = if mix.chance(50) {
+                    (32768 - mix.below(12)).min(plain.len()) as u32
+                } else {
+                    pick_dist(&mut mix, plain.len())
+                };
+                let st = plain.len() - dist as usize;
+                for i in 0..len as usize {
+                    let b = plain[st + i];
+                    plain.push(b);
+                }
+                toks.push(Tok::Ref { len, dist, irregular: false });
+                feat.hot_zone_tokens += 1;
+                continue;
+            }
             if !plain.is_empty() && mix.chance(ref_pct) {
                 let len = pick_len(&mut mix);
                 let dist = pick_dist(&mut mix, plain.len());
@@ -672,8 +734,18 @@ fn emit_dynamic_header(
             feat.hdist_slack += extra;
         }
     }
+    if opts.exotic && mix.chance(10) {
+        // the largest header the 5-bit fields can express
+        hlit = 288;
+        hdist = 32;
+        feat.max_header = true;
+        feat.hlit_gt286 = true;
+    }
     if hdist > 30 {
         feat.hdist_gt30 = true;
+        *zlib_ok = false;
+    }
+    if hlit > 286 {
         *zlib_ok = false;
     }
     lit_len.truncate(hlit);
